@@ -199,9 +199,9 @@ def parts(tier):
                    {"calls": 3, "inputs": ["simple", "shared"], "frameworks": ["pydantic"]}, shards=12, timeout=170, path_timeout=60),
                 CH("same_generation_after_other_registries", "vflib.props.c14:scen_history",
                    {"calls": 2, "inputs": ["dates"], "frameworks": ["pydantic"], "registries": ["default", "none", "datetime"]}, shards=16, timeout=170, path_timeout=60)]
-    return [CH("ranks", "vflib.props.c06:scen_ranks", {"inputs": ["merge2", "merge3", "shared", "names", "literals", "equal_models", "three_roots_shared"], "max_ranked": 7}, shards=16, timeout=250, path_timeout=60),
-            CH("real_seeds", "vflib.props.c06:scen_seeds_literals", {"seeds": 40}, shards=1, timeout=250, path_timeout=60),
-            CH("real_seeds_cli_files", "vflib.props.c06:scen_seeds_cli", {"seeds": 20}, shards=1, timeout=250, path_timeout=60)]
+    return [CH("ranks", "vflib.props.c06:scen_ranks", {"inputs": ["merge2", "merge3", "shared", "names", "literals", "equal_models", "three_roots_shared"], "max_ranked": 7}, shards=16, timeout=150, path_timeout=60),
+            CH("real_seeds", "vflib.props.c06:scen_seeds_literals", {"seeds": 40}, shards=1, timeout=150, path_timeout=60),
+            CH("real_seeds_cli_files", "vflib.props.c06:scen_seeds_cli", {"seeds": 20}, shards=1, timeout=150, path_timeout=60)]
 
 
 META = {
